@@ -38,6 +38,8 @@ type Sched struct {
 	schedule []int
 	visible  int
 	killed   bool
+	preemptBound int
+	preemptions  int
 }
 
 const maxVisibleOps = 400
@@ -131,11 +133,25 @@ func (ex *Exec) reschedule(me *vthread) {
 	if s.visible > maxVisibleOps {
 		panic(&pathAbort{Kind: "budget", Msg: fmt.Sprintf("more than %d visible operations on one path", maxVisibleOps)})
 	}
+	// preemption bounding (when the harness asks for it): once the budget is spent a thread
+	// whose own operation is enabled keeps running
+	meEnabled := false
+	for _, t := range cand {
+		if t == me {
+			meEnabled = true
+		}
+	}
+	if s.preemptBound > 0 && meEnabled && s.preemptions >= s.preemptBound {
+		cand = []*vthread{me}
+	}
 	i := 0
 	if len(cand) > 1 {
 		i = ex.decideFree(len(cand), "schedule")
 	}
 	next := cand[i]
+	if meEnabled && next != me {
+		s.preemptions++
+	}
 	s.schedule = append(s.schedule, next.id)
 	if next == me {
 		return
@@ -431,6 +447,16 @@ func init() {
 			}
 			return true
 		})
+		return nil
+	}
+	// vxPreemptionBound(k): explore the schedules with at most k preemptions (switches away from a
+	// thread that could have continued); switches at blocking points are always free. 0 = unbounded.
+	vxAPI["vxPreemptionBound"] = func(ex *Exec, fr *Frame, fn *ssa.Function, args []Value, site ssa.Instruction) Value {
+		k := argInt(ex, args[0])
+		ex.sched().preemptBound = k
+		if k > 0 {
+			ex.assumptions[fmt.Sprintf("schedules with at most %d preemptions (context switches at blocking points are unrestricted)", k)] = true
+		}
 		return nil
 	}
 	vxAPI["vxThreadID"] = func(ex *Exec, fr *Frame, fn *ssa.Function, args []Value, site ssa.Instruction) Value {
